@@ -481,13 +481,16 @@ def rule_r10(ctx, rid="C06.R10"):
     p = ctx.p
     f = p.func("task.Task.__init__")
     g = cfg_of(f)
-    fixes = [n for n in g.nodes if n.kind == "stmt" and isinstance(n.ast, ast.Assign) and any(isinstance(t, ast.Name) and t.id == "version" for t in n.ast.targets)
+    fixes = [n for n in g.nodes if n.kind == "stmt" and isinstance(n.ast, ast.Assign) and any((isinstance(t, ast.Name) and t.id == "version") or (isinstance(t, ast.Attribute) and t.attr == "version" and isinstance(t.value, ast.Name) and t.value.id == "self") for t in n.ast.targets)
              and isinstance(n.ast.value, ast.Constant) and n.ast.value.value == "1.0"]
     if not fixes:
         raise AnalysisError("anchor vanished: the version fallback of Task.__init__")
     ops = {ast.Eq: op.eq, ast.NotEq: op.ne, ast.Lt: op.lt, ast.LtE: op.le, ast.Gt: op.gt, ast.GtE: op.ge, ast.In: lambda a, b: a in b, ast.NotIn: lambda a, b: a not in b}
     fx = fixes[0]
-    gs = [(t, pol) for (t, pol) in guards_of(g, fx) if any(isinstance(x, ast.Name) and x.id == "version" for x in ast.walk(t))]
+    def is_ver(x):
+        # the local, or - when the guard was written over a snapshot the engine expands - request.version itself
+        return (isinstance(x, ast.Name) and x.id == "version") or (isinstance(x, ast.Attribute) and x.attr == "version" and norm(x.value) in ("request", "self.request"))
+    gs = [(t, pol) for (t, pol) in guards_of(g, fx) if any(is_ver(x) for x in ast.walk(t))]
     wrong = None
     for ver in ("1.0", "1.1", "0.9", "0.0", "1.2", "2.0", "9.9", ""):
         taken = True
@@ -495,7 +498,7 @@ def rule_r10(ctx, rid="C06.R10"):
             if not (isinstance(t, ast.Compare) and len(t.ops) == 1 and type(t.ops[0]) in ops):
                 raise AnalysisError("cannot evaluate the version test %s" % norm(t))
             def val(e):
-                if isinstance(e, ast.Name) and e.id == "version":
+                if is_ver(e):
                     return ver
                 return p.fold(e, f.module)
             try:
@@ -513,7 +516,15 @@ def rule_r10(ctx, rid="C06.R10"):
                         % (" and ".join(("" if pol else "not ") + norm(t) for (t, pol) in gs), "does not map" if not wrong[1] else "rewrites", wrong[0]), f.loc(fx.ast))
 
 
-RULES = [rule_r1, rule_r2, rule_r3, rule_r4, rule_r5, rule_r7, rule_r8, rule_r9, rule_r10]
+def rule_r11(ctx):
+    """Shared with C04.R4: 'exactly one error response' - a queued refused message is handed to the pool exactly once, which
+    needs every test-the-queue-and-dispatch to be one requests_lock region (tested outside, the worker that just popped its
+    request and the I/O thread that just queued the refused one both dispatch: the 4xx goes out twice)."""
+    from . import c04
+    c04.rule_r4(ctx, rid="C06.R11")
+
+
+RULES = [rule_r1, rule_r2, rule_r3, rule_r4, rule_r5, rule_r7, rule_r8, rule_r9, rule_r10, rule_r11]
 
 from ..selftest import M, T, V  # noqa: E402
 
